@@ -389,6 +389,41 @@ theorem isimip_step7_restores (cfg : Model.Isimip.Cfg) (o : Model.Isimip.Oracles
       | nil => simp at hx
       | cons b F => simp only [List.map_cons]; rw [ih F (by simpa using hx)]
 
+/-- **The trend ISIMIP removes from `cm_future` and restores after quantile mapping is the within-period linear trend
+    of its annual means**: with detrending on and a significant regression (oracle `sigF`; flag
+    `detrending_with_significance_test`), the fourth component of `step3` gives every value of year `y` the amount
+    `slope · (y − mean(unique years))`, `slope = linregress(unique_years, annual_means(cm_future)).slope`
+    (`trendSlope`, modelled exactly) — and by `isimip_step7_restores` exactly this is what the output gains over
+    the quantile-mapped detrended series. -/
+theorem isimip_removed_trend_linear (cfg : Model.Isimip.Cfg) (o : Model.Isimip.Oracles) (obs H F : List Rat)
+    (yO yH yF : List Int) (hd : cfg.detrending = true) (hsig : cfg.detrendingWithSignificanceTest = true)
+    (hF : o.sigF = true) (hlen : F.length = yF.length) :
+    (Model.Isimip.step3 cfg o obs H F yO yH yF).2.2.2 =
+      yF.map (fun (y : Int) => trendSlope F yF * ((y : Rat) - meanYear yF)) := by
+  unfold Model.Isimip.step3 Model.Isimip.step3RemoveTrend
+  simp only [hd, if_true, hF]
+  exact dailyTrend_linear cfg hsig F yF hlen
+
+/-- no significant trend: nothing is removed, the output of step 7 is the quantile-mapped series -/
+theorem isimip_removed_trend_zero (cfg : Model.Isimip.Cfg) (o : Model.Isimip.Oracles) (obs H F : List Rat)
+    (yO yH yF : List Int) (hns : (o.sigF && cfg.detrendingWithSignificanceTest) = false) (hlen : F.length = yF.length) :
+    (Model.Isimip.step3 cfg o obs H F yO yH yF).2.2.2 = yF.map (fun (_ : Int) => (0 : Rat)) := by
+  unfold Model.Isimip.step3 Model.Isimip.step3RemoveTrend
+  by_cases hd : cfg.detrending = true
+  · simp only [hd, if_true]
+    exact dailyTrend_zero cfg o.sigF hns F yF hlen
+  · simp only [hd, Bool.false_eq_true, if_false]
+    clear hns hd
+    induction F generalizing yF with
+    | nil => cases yF with
+      | nil => rfl
+      | cons _ _ => simp at hlen
+    | cons a F ih => cases yF with
+      | nil => simp at hlen
+      | cons b yF => simp only [List.map_cons]; rw [ih yF (by simpa using hlen)]
+
+example : tasCfg.detrending = true ∧ tasCfg.detrendingWithSignificanceTest = true := ⟨rfl, rfl⟩
+
 /-- … and `cm_future` itself is recovered from its detrended part (`Lemmas.IsimipModel.step7_step3_roundtrip`) -/
 theorem isimip_step7_step3_roundtrip (cfg : Model.Isimip.Cfg) (o : Model.Isimip.Oracles) (obs H F : List Rat)
     (yO yH yF : List Int) (h : F.length = yF.length) :
